@@ -92,6 +92,7 @@ func (e *exec) readOnlyCheck(src, where string) {
 			return
 		}
 	}
+	sbc := snapshotBehindCheckpoint(src)
 	sandboxRoot := ""
 	if e.rng.Chance(0.5) {
 		sandboxRoot = e.scratch("sandbox")
@@ -229,6 +230,17 @@ func (e *exec) readOnlyCheck(src, where string) {
 				all[smp.T] = true
 			}
 			for _, smp := range v {
+				if !all[smp.T] && sbc && e.cellOOO(k, smp.T) {
+					// listed finding (ooo-mmap-chunks-dropped-on-duplicate-series-record): the read-write open starts from a
+					// chunk snapshot that is not newer than the last WAL checkpoint; the checkpoint's series records reset the
+					// out-of-order chunks of the series just loaded. The read-only open replays the logs without a snapshot.
+					e.res.Count("tolerated:"+tsdbmodel.TagOOODupRef, 1)
+					if e.cfg.KF == tsdbmodel.TagOOODupRef {
+						e.fail("ro-vs-rw", "known:"+tsdbmodel.TagOOODupRef, "%s: read-only open (%s query) returns out-of-order sample %s of series %s that the read-write open (from a snapshot behind the checkpoint) lost", where, kind, smp, k)
+						return false
+					}
+					continue
+				}
 				if !all[smp.T] {
 					e.fail("ro-vs-rw", "ro-extra-sample:"+kind, "%s: read-only open (%s query) returns %s of series %s that a read-write open does not return", where, kind, smp, k)
 					return false
